@@ -64,6 +64,19 @@ def model_request(spec, truth, k, kvol, L):
     return {"op": "pestle", "repaired": True, "levels": levels}
 
 
+def call_request(spec, truth, names, field, volfrac, limit):
+    """the call as made, for the Lean model of `volume_integral`: every component of every box of every level, the field
+    name, the volume-fraction flag and the limit (the model looks the components up, cuts the levels and weights the values)"""
+    levels = []
+    for lv in range(len(spec["levels"])):
+        boxes = []
+        for bid, (lo, hi) in enumerate(spec["levels"][lv]):
+            a = np.where(np.isfinite(truth[(lv, bid)]), truth[(lv, bid)], 2.0 ** 100)
+            boxes.append({"lo": lo, "hi": hi, "comps": [[J(float(x)) for x in a[..., k].flatten(order="F")] for k in range(a.shape[-1])]})
+        levels.append({"grid": [g * 2 ** lv for g in spec["grid0"]], "dx": [J(Fr(x) / 2 ** lv) for x in spec["dx0"]], "boxes": boxes})
+    return {"op": "pestle_call", "names": list(names), "field": field, "volfrac": bool(volfrac), "limit": limit, "levels": levels}
+
+
 def run_case(ctx, rep, spec, field, volfrac, limit, model, path=None, truth=None, cli=False, start=None, pck=None):
     from amr_kitchen import PlotfileCooker
     from amr_kitchen.pestle.pestle import volume_integral
@@ -124,8 +137,10 @@ def run_case(ctx, rep, spec, field, volfrac, limit, model, path=None, truth=None
         rep.fail(f"integral {got} differs from the sum over uncovered cells {w} (levels 0..{L})", case, obs={"got": got, "want": w})
         return
     if model and not cli:
-        m = leanio.driver([model_request(spec, truth, k, kvol, L)])[0]
-        if m.get("integral") is None:
+        m = leanio.driver([call_request(spec, truth, names, field, volfrac, limit)])[0]
+        if m.get("nlevels") != L + 1:
+            rep.tie(f"the model of the call integrates {m.get('nlevels')} levels, the call is for levels 0..{L}", case)
+        elif m.get("integral") is None:
             rep.tie("model's covering masks are undefined for a mesh the tool integrates", case, m.get("rez"))
         else:
             mv = m["integral"][0] / m["integral"][1]
